@@ -58,6 +58,19 @@ def curated(ext_modes=("sinks", "all", "interior")) -> list[JobSpec]:
     # requested output that also has consumers elsewhere (replication of a requested dataset)
     out.append(simple_job("fork/root-requested", 3, [(0, 1), (0, 2)], [(0, "0"), (1, "0")]))
     out.append(simple_job("diamond/root+sink", 4, [(0, 1), (0, 2), (1, 3), (2, 3)], [(0, "0"), (3, "0")]))
+    # a child that consumes two outputs of one multi-output parent (their notices may arrive in separate batches)
+    tb = {
+        "t0": {"outs": ["a", "b"], "ps": {0: "s0"}, "kw": {}},
+        "t1": {"outs": ["0"], "ps": {2: "s1"}, "kw": {"c": 1}},
+    }
+    out.append(JobSpec("multi/both", tb, [("t0", "a", "t1", 0), ("t0", "b", "t1", 1)], [("t1", "0")]))
+    # eleven numbered outputs: '10' sorts before '2' as a string; consumers of outputs 10 and 2, output 9 requested
+    te = {
+        "t0": {"outs": [str(i) for i in range(11)], "ps": {0: "s0"}, "kw": {}},
+        "t1": {"outs": ["0"], "ps": {1: "s1"}, "kw": {}},
+        "t2": {"outs": ["0"], "ps": {1: "s2"}, "kw": {}},
+    }
+    out.append(JobSpec("multi/eleven", te, [("t0", "10", "t1", 0), ("t0", "2", "t2", 0)], [("t1", "0"), ("t2", "0"), ("t0", "9")]))
     # tasks whose value is None (a function without a return statement): as a requested sink, and as a requested
     # dataset that also feeds a consumer
     for nm, nones, ext in (("none-sink", [1], [(1, "0")]), ("none-mid", [0], [(0, "0"), (1, "0")])):
